@@ -1,5 +1,6 @@
 use crate::engine::PropFn;
 
+pub mod c01;
 pub mod c02;
 pub mod c14;
 pub mod c15;
@@ -9,6 +10,7 @@ pub mod c20;
 
 pub fn lookup(id: &str) -> Option<PropFn> {
     Some(match id {
+        "C01" => c01::run,
         "C02" => c02::run,
         "C14" => c14::run,
         "C15" => c15::run,
